@@ -11,13 +11,13 @@
 #endif
 
 /* the caller holds its lock and not the internal one; the cv object and its data block are alive */
-#define PUB_PRE (self == vx_self && self->data_ == g_blk && g_blk->count_ >= 1 && g_blk->count_ < VX_BIG && !g_blk->mtx_.held && !g_self_dead && \
+#define PUB_PRE (!g_il_owns && self == vx_self && self->data_ == g_blk && g_blk->count_ >= 1 && g_blk->count_ < VX_BIG && !g_blk->mtx_.held && !g_self_dead && \
                  g_int_releases == 0 && g_int_acquires == 0 && g_user_unlocks == 0 && g_user_locks == 0 && g_dwaits == 0 && \
                  g_dnotify_one == 0 && g_dnotify_all == 0 && vx_exc == 0 && !g_cb_registered && g_cb_runs_here == 0 && \
                  (ec == &vx_throws || ec == &g_ec) && PRE_EC && g_user_released_since_pred == false)
 #define WAIT_PRE (PUB_PRE && lock == g_user && lock->held)
 /* returns with the user lock re-acquired and the internal lock released (also on the exceptional exit) */
-#define WAIT_POST (g_user->held && !g_blk->mtx_.held)
+#define WAIT_POST (g_user->held && !g_blk->mtx_.held && !g_il_owns)
 
 /* ---- notify_one / notify_all: take the internal lock, forward exactly once ---------------------------------------- */
 #ifdef U_NOTIFY_ONE
@@ -48,11 +48,7 @@ __CPROVER_requires(WAIT_PRE)
 __CPROVER_ensures(WAIT_POST && g_dwaits == 1 && g_user_unlocks == 1 && g_user_locks == 1)
 __CPROVER_ensures(g_may_die || !g_self_dead)
 __CPROVER_assigns(PUB_GHOST)
-#ifdef U_WAIT
-//@LIFT body
-#else
-;
-#endif
+//@LIFT wait_body
 #endif
 
 #ifdef U_WAIT_PRED
@@ -79,11 +75,7 @@ __CPROVER_ensures((vx_exc == 0 && g_last_wake == thread_restart_state_signaled) 
 __CPROVER_ensures(vx_exc == 0 ==> (__CPROVER_return_value == cv_status_no_timeout || __CPROVER_return_value == cv_status_timeout || __CPROVER_return_value == cv_status_error))
 __CPROVER_ensures(g_may_die || !g_self_dead)
 __CPROVER_assigns(PUB_GHOST)
-#ifdef U_WAIT_UNTIL
-//@LIFT body
-#else
-;
-#endif
+//@LIFT wait_until_body
 #endif
 
 #ifdef U_WAIT_UNTIL_PRED
@@ -104,7 +96,7 @@ __CPROVER_assigns(PUB_GHOST)
 #endif
 /* the stop callback: the lambda [&data, &ec] of the stop-token waits */
 void stop_cb_body(struct vx_closure *clo)
-__CPROVER_requires(*clo->data == g_blk && g_blk->count_ >= 1 && !g_blk->mtx_.held && g_dnotify_all < 2 && (*clo->ec == &vx_throws || *clo->ec == &g_ec))
+__CPROVER_requires(!g_il_owns && *clo->data == g_blk && g_blk->count_ >= 1 && !g_blk->mtx_.held && g_dnotify_all < 2 && (*clo->ec == &vx_throws || *clo->ec == &g_ec))
 /* takes the internal lock and notifies all, exactly once */
 __CPROVER_ensures(g_dnotify_all == __CPROVER_old(g_dnotify_all) + 1 && g_dnotify_one == __CPROVER_old(g_dnotify_one) && !g_blk->mtx_.held)
 __CPROVER_assigns(PUB_GHOST)
@@ -148,6 +140,7 @@ void harness(void)
   blk.mtx_.held = false;
   blk.count_ = nondet_long();
   ul.held = true;
+  g_il_owns = false;
   g_may_die = nondet_bool();
   g_self_dead = false;
   g_int_releases = 0; g_int_acquires = 0; g_int_held_since_user_unlock = false; g_stop_checked_false_in_cs = false;
